@@ -218,6 +218,8 @@ pub fn run(ctx: &Ctx) {
     }
     sweep(ctx, ln, &ws_class(), 0, false, a_len);
     ln += 1;
+    sweep(ctx, ln, &mid_bom(t.pick(3, 4)), 1, false, a_len);
+    ln += 1;
     let docs = corpus();
     ctx.layer("E.corpus", ln, docs.len() as u64 * 2, json!({"files": docs.len()}), |i, acc| {
         let d = &docs[(i / 2) as usize];
